@@ -845,7 +845,7 @@ inline size_t parse_decimal(const char *begin, size_t len, int &to)
 {
 	const char *bsv(begin);
 	while(len-- > 0)
-		to = (to << 3) + (to << 1) + (*begin++ - '0');
+		to = to * 10 + (*begin++ - '0'); // no shifts: the intermediate is negative for non-digit input
 	return begin - bsv;
 }
 
